@@ -191,6 +191,37 @@ Section SurrogateP.
     destruct (calls ks n g h (state_after num L P St (sb k n g h st))) as [[outs h'] st']. exact IH.
   Qed.
 
+  (* round 4: a session of calls on one sampler object, each with its own batch size, search space and history *)
+  Notation session := (run_session num zero ltb absdiff L P Surr St draw_pool fit predict argsort).
+
+  Lemma session_length reqs : forall n st, length (session reqs n st) = length reqs.
+  Proof. induction reqs as [|q reqs IH]; intros n st; cbn [run_session length]; [reflexivity|]. now rewrite IH. Qed.
+
+  Lemma session_histories reqs : forall n st, pool_pure -> fit_pure ->
+    map hafter (session reqs n st) = map (req_history num L) reqs.
+  Proof.
+    induction reqs as [|q reqs IH]; intros n st Hp Hf; [reflexivity|].
+    cbn [run_session map]. rewrite (sb_history _ n _ _ st Hp Hf). f_equal. apply IH; assumption.
+  Qed.
+
+  Lemma session_fit_args reqs : forall n st, pool_pure ->
+    map (fun r => t_fit_arg num L P (tr r)) (session reqs n st) = map (req_history num L) reqs.
+  Proof.
+    induction reqs as [|q reqs IH]; intros n st Hp; [reflexivity|].
+    cbn [run_session map]. rewrite (sb_fit_arg _ n _ _ st Hp). f_equal. apply IH; assumption.
+  Qed.
+
+  (* the i-th call of a session is sample_batch on the i-th request from SOME generator state: nothing else of the
+     earlier calls (their histories, batch sizes, search spaces) can influence it *)
+  Lemma session_nth reqs : forall n st i q, nth_error reqs i = Some q ->
+    exists st', nth_error (session reqs n st) i = Some (sb (req_k num L q) n (req_grids num L q) (req_history num L q) st').
+  Proof.
+    induction reqs as [|q0 reqs IH]; intros n st i q Hi; [destruct i; discriminate|].
+    destruct i as [|i]; cbn [nth_error run_session] in *.
+    - injection Hi as ->. now exists st.
+    - apply IH; assumption.
+  Qed.
+
   (* unfolding of the trace *)
   Lemma sb_trace_eqs k n g h st :
     let r := sb k n g h st in
